@@ -33,7 +33,7 @@ func TestDescribe(t *testing.T) {
 	w := s.world()
 	for _, f := range s.effective() {
 		ty, st, r := w.evalVal(f.Val)
-		t.Logf("expect %-4s typed=%#v str=%#v res=%+v", f.Name, ty, st, r)
+		t.Logf("expect %-4s typed=%#v str=%#v res=%+v", f.Name, ty, st.project(2), r)
 	}
 	t.Logf("discard=%q danger=%q classes=%v", w.discard, w.danger, w.cls)
 	if w.danger == "" {
@@ -49,7 +49,7 @@ func TestDescribe(t *testing.T) {
 				}
 				_, exps := s.expectAll(s.tableAt(r))
 				for _, e := range exps {
-					t.Logf("round %d expect %-4s typed=%#v str=%#v res=%+v", r, e.name, e.typed, e.str, e.res)
+					t.Logf("round %d expect %-4s typed=%#v str=%#v res=%+v", r, e.name, e.typed, e.str.project(2), e.res)
 				}
 			}
 			v := ss.resolve()
